@@ -89,6 +89,8 @@ for p in props:
         status = f"{sw[2]} ({sw[3]})" if sw else "not swept"
         first = sw[4] if sw else ""
         what = meta.get("what") or meta.get("origin", "")
+        if os.path.exists(os.path.join(d, "patch.orig.diff")):
+            what += " [re-created on the repaired tree; the patch as first made is patch.orig.diff]"
         hist = meta.get("ran", "")
         missed = "yes" if "MISSED" in hist else ""
         rows.append(f"| `{name}` | {esc(what)[:260]} | {status} | {esc(first)[:160]} | {missed} |")
@@ -97,7 +99,7 @@ for p in props:
         out.extend(rows)
         out.append("")
 
-out.append(read("docs/design_tail.md"))
+out.append(read("docs/design_tail.md").replace("{{NFIX}}", str(nfix)).replace("{{NNEUTRAL}}", str(len(glob.glob(os.path.join(HERE, "seeded", "*", "neutralised"))))))
 # seeds missed at first: the strengthening
 out.append("\n### Seeds that were missed at first, and what was strengthened\n")
 for d in sorted(glob.glob(os.path.join(HERE, "seeded", "*"))):
